@@ -1,4 +1,4 @@
 From Coq Require Import Extraction ExtrOcamlBasic ZArith.
-From LT Require Import Zbase PowmModel SqrtModel InterpModel.
+From LT Require Import Zbase PowmModel SqrtModel InterpModel PrimeModel.
 Extraction "model.ml" invm spowm fpowm_precompute fpowm fpowm_ui fspowm
-  Z.to_N (* drvcore.ml needs the type n *) sqrtmp_with sqrtmn_with sqrtmn_all_with sqrtmn_fast sqrtmn_fast_all interpolate.
+  Z.to_N (* drvcore.ml needs the type n *) sqrtmp_with sqrtmn_with sqrtmn_all_with sqrtmn_fast sqrtmn_fast_all interpolate lprime_run sprime_accepts.
